@@ -371,6 +371,8 @@ fn run_sconv(a: &Args) {
         });
         let wrapped = match &r { None => true, Some(o) => (0..4).any(|j| (o[j + 4] as i128 - src[j] as i128).abs() > (1 << 24)) };
         st.count(if wrapped { "probe_i64_rail_overflow_reproduced" } else { "probe_i64_rail_overflow_not_reproduced" });
+        // listed in /verif/known_findings.json (C18-i64-rail-overflow): reported as a KNOWN-FINDING, never as a new violation
+        if wrapped { st.known_hit("C18-i64-rail-overflow", "sinc depth 4 ratio 1 i64 frames [MAX, MAX, MIN, MAX]", &format!("{:?}", r)); }
         st.note(&format!("probe: i64 frames at i64::MAX/MIN, depth 4, ratio 1: {} (the residual off-centre taps, ~1e-16 of full scale = hundreds of LSB for i64, are added in i64 and overflow at the rails: wraps in release, panics with overflow checks); observed {:?}", if wrapped { "integer accumulation overflowed" } else { "no overflow" }, r));
     }
     st.note("integer sample formats (i16, I24, i32, u32, i64; mono and stereo; 32/64-bit values with more than 24 significant bits) are NOT modelled in Lean; they are oracle-checked only (no request lines): at ratio exactly 1 from equilibrium padding (i64 values kept 2^24 LSB away from the rails, see the probe note) output j is within 1e-12*peak (peak amplitude in LSB from equilibrium, i.e. exactly for formats of at most 32 bits) of source[j-depth]; on op-for-op identical histories out(A+B) = out(A)+out(B) and out(2A) = 2 out(A) within one LSB per tap and run (plus the f64 conversion error 2^12 LSB per tap for i64), amplitudes at most 1/16 of full scale so that no integer addition overflows; a constant of 1/4 full scale is reproduced within 1% + one LSB per tap once 2*depth frames are buffered, depth >= 4");
